@@ -20,4 +20,6 @@ for d in sorted(glob.glob('/verif/benign/*')):
         finally:
             subprocess.run(['git','-C','/repo','checkout','--','.'])
             subprocess.run(['git','-C','/repo','clean','-fdq','--','internal','pkg','cmd','apis'])
-json.dump(res,open('/verif/benign/results.json','w'),indent=1)
+if only and os.path.exists('/verif/benign/results.json'):
+    old=json.load(open('/verif/benign/results.json')); old.update(res); res=old
+json.dump(res,open('/verif/benign/results.json','w'),indent=1,sort_keys=True)
